@@ -127,6 +127,45 @@ theorem run_ok (acts : List SAct) : ∀ s : Srv, Inv s → srvOk s.outstanding (
 theorem ack_window_consistent (acts : List SAct) : srvOk 0 (srvRun Srv.init acts) = true :=
   run_ok acts Srv.init inv_init
 
+/-- every reaction of the model meets the per-call demand: the wire carries the caller's own
+    count (never a truncation of it), the caller's blocking flag, or the call is refused -/
+theorem step_meets_srvDemand (s : Srv) (a : SAct) (h : Inv s) : srvDemand a (srvStep s a).2 = true := by
+  cases a with
+  | reqTxs k => simp [srvStep, srvDemand]
+  | reqIds b r n =>
+    by_cases ha : srvAdmits s r = true
+    · have hw := wire_exact s (.reqIds b r n) h (ack := toU16 s.ackCount) (req := toU16 r) (b := b)
+        (res := some n) (by simp [srvStep, ha])
+      simp only [srvStep, ha, ↓reduceIte, srvDemand, Bool.and_eq_true, decide_eq_true_eq, beq_self_eq_true, and_true]
+      exact hw.2.2.2.2
+    · simp [srvStep, ha, srvDemand]
+  | reqIdsDone r =>
+    by_cases ha : srvAdmits s r = true
+    · have hw := wire_exact s (.reqIdsDone r) h (ack := toU16 s.ackCount) (req := toU16 r) (b := true)
+        (res := none) (by simp [srvStep, ha])
+      simp only [srvStep, ha, ↓reduceIte, srvDemand, Bool.and_eq_true, decide_eq_true_eq, and_true]
+      exact hw.2.2.2.2
+    · simp [srvStep, ha, srvDemand]
+
+/-- … over any history -/
+theorem run_meets_demands (acts : List SAct) : ∀ s : Srv, Inv s → srvDemands acts (srvRun s acts) = true := by
+  induction acts with
+  | nil => intro s _; rfl
+  | cons a t ih =>
+    intro s h
+    unfold srvRun
+    simp only [srvDemands, Bool.and_eq_true]
+    exact ⟨step_meets_srvDemand s a h, ih _ (inv_step s a h)⟩
+
+/-- Counts outside 0..65535 are refused, not wrapped: together with `ack_window_consistent`
+    (wire counts ≤ 65535) no accepted trace contains a request for a count the caller did not give. -/
+theorem counts_never_truncated (acts : List SAct) : srvDemands acts (srvRun Srv.init acts) = true :=
+  run_meets_demands acts Srv.init inv_init
+
+/-- the demand is not vacuous: 65541 going out as 5 is rejected, a refusal is accepted -/
+example : srvDemands [.reqIds false 65541 0] [.wire 0 5 false (some 0)] = false := by decide
+example : srvDemands [.reqIds false 65541 0] [.refused] = true := by decide
+
 /-- the monitor is not vacuous: it rejects a trace that acknowledges an id never received -/
 example : srvOk 0 [.wire 0 3 true (some 2), .wire 3 1 false (some 0)] = false := by decide
 /-- … and one whose count left the 16-bit range -/
